@@ -8,6 +8,7 @@ package blockstore
 // indexed.  The store invariant RI(b) is  wn(b.dataWriter) == pend(b).
 
 //@ func (*ReadWrite).PutMany
+//@   modifies wn(b.dataWriter), pend(b), nrec(b.idx), all(byCid), all(byMh), all(byDg)
 //@   requires ri: wn(b.dataWriter) == pend(b)
 //@   requires writer: b.dataWriter != nil && objinv(b.dataWriter)
 //@   requires unlocked [C08]: held(b.ronly.mu) == 0
@@ -32,6 +33,7 @@ package blockstore
 //@   ensures finalized_err [C04]: !old(b.ronly.closed) && old(b.finalized) ==> err == errFinalized && wn(b.dataWriter) == old(wn(b.dataWriter)) && nrec(b.idx) == old(nrec(b.idx))
 
 //@ func (*ReadWrite).initWithRoots
+//@   modifies wn(b.dataWriter), writes(b.f), fsize(b.f)
 //@   call[File.WriteAt#0] assert pragma_at_offset_zero [C05]: ref(arg0) == ref(b.f) && len(arg1) == 11 && arg2 == 0
 //@   requires writer: b.dataWriter != nil
 //@   let hdr := call[carv1.WriteHeader#0]
@@ -39,6 +41,7 @@ package blockstore
 //@   ensures v1_no_pragma [C05]: !v2 ==> writes(b.f) == old(writes(b.f))
 
 //@ func (*ReadWrite).finalizeReadOnlyWithoutMutex
+//@   modifies b.finalized, writes(b.f), fsize(b.f)
 //@   requires write_locked [C08]: held(b.ronly.mu) == 2
 //@   requires writer: b.opts.WriteAsCarV1 || b.dataWriter != nil
 //@   call[store.Finalize#0] assert args [C05]: ref(arg0) == ref(b.f) && arg1 == b.header && ref(arg2) == ref(b.idx) && arg3 == wrap_u64(wrap_s64(wn(b.dataWriter) - wbase(b.dataWriter))) && arg4 == b.opts.StoreIdentityCIDs && arg5 == b.opts.IndexCodec
@@ -133,6 +136,7 @@ package blockstore
 //@   note vocabulary's guarded / guardeduse declarations must hold with held == 0, i.e. it may not touch the index
 
 //@ func (*ReadOnly).AllKeysChan
+//@   modifies held(b.mu)
 //@   call[carv1.ReadHeader#0] assert configured_header_limit [C09]: arg1 == b.opts.MaxAllowedHeaderSize
 //@   requires unlocked [C08]: held(b.mu) == 0
 //@   ghost after go[0]: held(b.mu) := 3
@@ -176,6 +180,7 @@ package blockstore
 // latter through the guard:* obligations generated from the vocabulary's guarded / guardeduse declarations.
 
 //@ func (*ReadWrite).Put
+//@   modifies wn(b.dataWriter), pend(b), nrec(b.idx), all(byCid), all(byMh), all(byDg)
 //@   requires ri: wn(b.dataWriter) == pend(b)
 //@   requires writer: b.dataWriter != nil && objinv(b.dataWriter)
 //@   requires unlocked [C08]: held(b.ronly.mu) == 0
@@ -197,6 +202,7 @@ package blockstore
 //@   ensures released [C08]: held(b.ronly.mu) == 0
 
 //@ func (*ReadWrite).Finalize
+//@   modifies b.finalized, b.ronly.closed, writes(b.f), fsize(b.f)
 //@   let ferr := call[ReadWrite.finalizeReadOnlyWithoutMutex#0]
 //@   let cerr := call[ReadWrite.closeWithoutMutex#0]
 //@   ensures reports_the_first_failure [C04,C16]: (ferr != nil ==> err == ferr) && (ferr == nil ==> err == cerr)
@@ -206,19 +212,23 @@ package blockstore
 //@   ensures released [C08]: held(b.ronly.mu) == 0
 
 //@ func (*ReadWrite).FinalizeReadOnly
+//@   modifies b.finalized, writes(b.f), fsize(b.f)
 //@   requires writer: b.opts.WriteAsCarV1 || b.dataWriter != nil
 //@   requires unlocked [C08]: held(b.ronly.mu) == 0
 //@   ensures released [C08]: held(b.ronly.mu) == 0
 
 //@ func (*ReadWrite).Close
+//@   modifies b.ronly.closed
 //@   requires unlocked [C08]: held(b.ronly.mu) == 0
 //@   ensures released [C08]: held(b.ronly.mu) == 0
 
 //@ func (*ReadWrite).Discard
+//@   modifies b.ronly.closed
 //@   requires unlocked [C08]: held(b.ronly.mu) == 0
 //@   ensures released [C08]: held(b.ronly.mu) == 0
 
 //@ func (*ReadWrite).closeWithoutMutex
+//@   modifies b.ronly.closed
 //@   let cerr := call[ReadOnly.closeWithoutMutex#0]
 //@   ensures closes_a_finalized_store [C04]: (b.opts.WriteAsCarV1 || old(b.finalized)) && !old(b.ronly.closed) ==> b.ronly.closed && err == cerr
 //@   ensures second_close_is_an_error [C04]: (b.opts.WriteAsCarV1 || old(b.finalized)) && old(b.ronly.closed) ==> err != nil
@@ -228,11 +238,13 @@ package blockstore
 //@   ensures needs_finalize [C04]: !b.opts.WriteAsCarV1 && !old(b.finalized) ==> err != nil && !b.ronly.closed == !old(b.ronly.closed)
 
 //@ func (*ReadOnly).Close
+//@   modifies b.closed
 //@   requires unlocked [C08]: held(b.mu) == 0
 //@   ensures released [C08]: held(b.mu) == 0
 //@   ensures closed [C04]: b.closed
 
 //@ func (*ReadOnly).closeWithoutMutex
+//@   modifies b.closed
 //@   requires write_locked [C08]: held(b.mu) == 2
 //@   ensures still_locked [C08]: held(b.mu) == 2
 //@   ensures closed [C04]: b.closed
